@@ -1,9 +1,15 @@
 (** A command line whose command word is plain and whose arguments are quoted is
-    inert under do_expansion, except that double-quoted references in the C10 domain
-    are replaced by their one-pass value.  Refutation side: an UNTAGGED reference
-    whose value is a pipe becomes an untagged pipe token. *)
+    inert under do_expansion, except that double-quoted references are replaced by their
+    one-pass value.  The value itself is UNRESTRICTED as far as parameter expansion goes
+    (one left-to-right scan, the value is never looked at again); what is asked of the
+    resulting double-quoted token is only what the LATER passes need: no backquote (the
+    backquote pass) and no dollar immediately followed by an open paren (the dollar pass).
+    Refutation side: an UNTAGGED reference whose value is a pipe becomes an untagged pipe
+    token; a DOUBLE-QUOTED reference whose value holds a dollar, a newline and a pipe
+    stays one double-quoted token with exactly that text. *)
 From Coq Require Import List NArith ZArith Bool Lia.
-From Cicada Require Import Base.Chars Base.Tag Base.Regex Gen.ShellRegexes Model.Expand Model.ExpandRef Proofs.ExpandBasics Proofs.EnvProofs.
+From Cicada Require Import Base.Chars Base.Tag Base.Regex Gen.ShellRegexes Model.Expand Model.ExpandRef Proofs.ExpandBasics Proofs.EnvProofs
+  Proofs.ExpandOnceProofs Proofs.SubstProofs.
 From Cicada Require Model.Tokenizer.
 Import ListNotations.
 From Coq Require String.
@@ -23,26 +29,31 @@ Record cmd_ok (W : World) (cmd : str) : Prop := {
 }.
 
 (** how one argument token is transformed *)
-Inductive tok_ok (W : World) (fuel : nat) : token -> token -> Prop :=
-| ok_sq s : tok_ok W fuel (TSq, s) (TSq, s)
-| ok_dq s : ~ In 36 s -> ~ In 96 s -> tok_ok W fuel (TDq, s) (TDq, s)
-| ok_ref ps : c10_dom W ps = true -> ~ In 96 (den_pieces W ps) -> (S (count_refs ps) <= fuel)%nat ->
-              tok_ok W fuel (TDq, render_pieces ps) (TDq, den_pieces W ps).
+Inductive tok_ok (W : World) : token -> token -> Prop :=
+| ok_sq s : tok_ok W (TSq, s) (TSq, s)
+| ok_dq s : ~ In 36 s -> ~ In 96 s -> tok_ok W (TDq, s) (TDq, s)
+| ok_ref ps : wf_pieces ps = true -> gate_ok ps = true ->
+              ~ In 96 (den_pieces W ps) -> has_dollar_paren (den_pieces W ps) = false ->
+              tok_ok W (TDq, render_pieces ps) (TDq, den_pieces W ps).
 
 (** an argument token no pass after expand_env touches *)
 Definition inert (t : token) : Prop :=
   fst t = TSq \/ (fst t = TDq /\ ~ In 36 (snd t) /\ ~ In 96 (snd t)).
 
-(** a token the two command-substitution passes leave alone *)
+(** a token the two command-substitution passes leave alone: it may contain dollars, but no
+    dollar immediately followed by an open paren *)
 Definition calm (t : token) : Prop :=
-  fst t = TSq \/ (fst t = TDq \/ fst t = TNone) /\ ~ In 36 (snd t) /\ ~ In 96 (snd t).
+  fst t = TSq \/ ((fst t = TDq \/ fst t = TNone) /\ has_dollar_paren (snd t) = false /\ ~ In 96 (snd t)).
 
 (** a token the three run_pass passes skip *)
 Definition still (t : token) : Prop :=
   fst t <> TNone \/ ~ In 42 (snd t) /\ ~ In 123 (snd t).
 
 Lemma inert_calm t : inert t -> calm t.
-Proof. intros [H|(T & H)]; [left; exact H | right; split; [left; exact T | exact H]]. Qed.
+Proof.
+  intros [H|(T & H36 & H96)]; [left; exact H | right].
+  split; [left; exact T|]. split; [apply has_dollar_paren_no_dollar; exact H36 | exact H96].
+Qed.
 
 Lemma inert_still t : inert t -> still t.
 Proof. intros [H|(H & _)]; left; rewrite H; discriminate. Qed.
@@ -171,77 +182,58 @@ Proof.
 Qed.
 
 (* ------------------------------------------------------------------ 3: expand_env *)
-Lemma expand_env_tok_ok W fuel t t' : tok_ok W fuel t t' -> expand_env_tok fuel W t = Ok t'.
+Lemma expand_env_tok_ok W t t' : tok_ok W t t' -> expand_env_tok W t = t'.
 Proof.
-  intros H. destruct H as [s|s H36 H96|ps Hdom H96 Hf].
+  intros H. destruct H as [s|s H36 H96|ps Hwf Hg H96 Hdp].
   - apply expand_env_tok_quoted. left. reflexivity.
   - unfold expand_env_tok. cbn [fst snd]. rewrite (env_in_token_no_dollar s H36). reflexivity.
-  - pose proof (expand_env_pieces W ps TDq Hdom) as P.
-    assert (P' : expand_env (S (count_refs ps)) W [(TDq, render_pieces ps)] = Ok [(TDq, den_pieces W ps)])
-      by (apply P; discriminate).
-    clear P. cbn [expand_env] in P'.
-    destruct (expand_env_tok (S (count_refs ps)) W (TDq, render_pieces ps)) as [t1| |] eqn:T;
-      cbn [bind res_map] in P'; try discriminate.
-    injection P' as ->.
-    unfold expand_env_tok in T |- *. cbn [fst snd] in T |- *.
-    destruct (env_in_token (render_pieces ps)) eqn:E.
-    + destruct (expand_env_loop (S (count_refs ps)) W (render_pieces ps)) as [r| |] eqn:L;
-        cbn [res_map] in T; try discriminate.
-      injection T as ->.
-      rewrite (expand_env_loop_ge _ _ _ _ L fuel Hf). reflexivity.
-    + exact T.
+  - apply expand_env_tok_den; [exact Hwf | exact Hg | discriminate | discriminate].
 Qed.
 
-Lemma expand_env_forall2 W fuel l l' : Forall2 (tok_ok W fuel) l l' -> expand_env fuel W l = Ok l'.
+Lemma expand_env_forall2 W l l' : Forall2 (tok_ok W) l l' -> expand_env W l = l'.
 Proof.
-  induction 1 as [|t t' l l' Ht _ IH]; [reflexivity|].
-  cbn [expand_env]. rewrite (expand_env_tok_ok _ _ _ _ Ht). cbn [bind]. rewrite IH. reflexivity.
+  unfold expand_env. induction 1 as [|t t' l l' Ht _ IH]; [reflexivity|].
+  cbn [map]. rewrite (expand_env_tok_ok _ _ _ Ht), IH. reflexivity.
 Qed.
 
-Lemma expand_env_inert W fuel (cmd : str) l l' :
-  ~ In 36 cmd -> Forall2 (tok_ok W fuel) l l' ->
-  expand_env fuel W ((TNone, cmd) :: l) = Ok ((TNone, cmd) :: l').
+Lemma expand_env_inert W (cmd : str) l l' :
+  ~ In 36 cmd -> Forall2 (tok_ok W) l l' ->
+  expand_env W ((TNone, cmd) :: l) = (TNone, cmd) :: l'.
 Proof.
-  intros Hc Hl. cbn [expand_env]. unfold expand_env_tok at 1. cbn [fst snd].
-  rewrite (env_in_token_no_dollar cmd Hc). cbn [bind].
-  rewrite (expand_env_forall2 _ _ _ _ Hl). reflexivity.
+  intros Hc Hl. pose proof (expand_env_forall2 _ _ _ Hl) as E. unfold expand_env in *.
+  cbn [map]. rewrite E. unfold expand_env_tok. cbn [fst snd].
+  rewrite (env_in_token_no_dollar cmd Hc). reflexivity.
 Qed.
 
 (* ------------------------------------------------------------------ 4: what expand_env leaves behind *)
-Lemma okc_36 noeq : okc noeq 36 = false.
-Proof. destruct noeq; reflexivity. Qed.
+Lemma tok_ok_tagged_l W t t' : tok_ok W t t' -> tagged t.
+Proof. intros [s|s _ _|ps _ _ _ _]; reflexivity. Qed.
 
-Lemma den_no_dollar noeq W ps : dom_ok noeq W ps = true -> ~ In 36 (den_pieces W ps).
-Proof.
-  intros H Hin. unfold den_pieces in Hin. apply in_flat_map in Hin as (p & Hp & Hc).
-  unfold dom_ok, lits_ok, vals_ok in H. apply andb_true_iff in H as [Hl Hv].
-  rewrite forallb_forall in Hl, Hv. specialize (Hl p Hp). specialize (Hv p Hp).
-  destruct p as [c|b k]; cbn [den_piece] in Hc.
-  - destruct Hc as [->|[]]. rewrite okc_36 in Hl. discriminate.
-  - rewrite forallb_forall in Hv. specialize (Hv 36 Hc). rewrite okc_36 in Hv. discriminate.
-Qed.
-
-Lemma tok_ok_tagged_l W fuel t t' : tok_ok W fuel t t' -> tagged t.
-Proof. intros [s|s _ _|ps _ _ _]; reflexivity. Qed.
-
-Lemma forall2_tagged_l W fuel l l' : Forall2 (tok_ok W fuel) l l' -> Forall tagged l.
+Lemma forall2_tagged_l W l l' : Forall2 (tok_ok W) l l' -> Forall tagged l.
 Proof.
   induction 1 as [|t t' l l' Ht _ IH]; constructor; [eapply tok_ok_tagged_l; eassumption | exact IH].
 Qed.
 
-Lemma tok_ok_inert_r W fuel t t' : tok_ok W fuel t t' -> inert t'.
+(** the result may contain dollars (the value is data), so it is not [inert]; it is [calm] and [still] *)
+Lemma tok_ok_calm_r W t t' : tok_ok W t t' -> calm t'.
 Proof.
-  intros [s|s H36 H96|ps Hdom H96 Hf].
+  intros [s|s H36 H96|ps Hwf Hg H96 Hdp].
   - left. reflexivity.
-  - right. cbn [fst snd]. auto.
-  - right. cbn [fst snd]. split; [reflexivity|]. split; [|exact H96].
-    unfold c10_dom in Hdom. apply andb_true_iff in Hdom as [_ Hd].
-    apply orb_true_iff in Hd as [Hd|Hd]; eapply den_no_dollar; eassumption.
+  - apply inert_calm. right. cbn [fst snd]. auto.
+  - right. cbn [fst snd]. split; [left; reflexivity|]. split; [exact Hdp | exact H96].
 Qed.
 
-Lemma forall2_inert_r W fuel l l' : Forall2 (tok_ok W fuel) l l' -> Forall inert l'.
+Lemma tok_ok_still_r W t t' : tok_ok W t t' -> still t'.
+Proof. intros [s|s _ _|ps _ _ _ _]; left; cbn [fst]; discriminate. Qed.
+
+Lemma forall2_calm_r W l l' : Forall2 (tok_ok W) l l' -> Forall calm l'.
 Proof.
-  induction 1 as [|t t' l l' Ht _ IH]; constructor; [eapply tok_ok_inert_r; eassumption | exact IH].
+  induction 1 as [|t t' l l' Ht _ IH]; constructor; [eapply tok_ok_calm_r; eassumption | exact IH].
+Qed.
+
+Lemma forall2_still_r W l l' : Forall2 (tok_ok W) l l' -> Forall still l'.
+Proof.
+  induction 1 as [|t t' l l' Ht _ IH]; constructor; [eapply tok_ok_still_r; eassumption | exact IH].
 Qed.
 
 (* ------------------------------------------------------------------ 5: the three run_pass passes *)
@@ -321,10 +313,7 @@ Lemma dot_split_none s : ~ In 96 s -> dot_split s = None.
 Proof. intros H. unfold dot_split. rewrite (span_not_bq s H). reflexivity. Qed.
 
 Lemma should_do_dollar_false s : ~ In 36 s -> should_do_dollar s = false.
-Proof.
-  intros H. unfold should_do_dollar. destruct (rx_search rx_dollar_cmd s) eqn:E; [|reflexivity].
-  exfalso. apply H. apply (rx_search_requires 36 rx_dollar_cmd); [reflexivity | exact E].
-Qed.
+Proof. intros H. apply should_do_needs_dollar_paren. apply has_dollar_paren_no_dollar. exact H. Qed.
 
 Lemma dot_collect_calm W toks :
   Forall calm toks -> forall i log, dot_collect W toks i log = Ok ([], log).
@@ -343,9 +332,9 @@ Lemma dollar_pass_calm fuel W toks :
 Proof.
   induction 1 as [|[tg s] r Ht _ IH]; intros log; [reflexivity|].
   cbn [dollar_pass]. rewrite IH. cbn [bind option_map fst snd].
-  destruct Ht as [Ht|(_ & H36 & _)]; cbn [fst snd] in *.
+  destruct Ht as [Ht|(_ & Hdp & _)]; cbn [fst snd] in *.
   - subst tg. reflexivity.
-  - rewrite (should_do_dollar_false s H36). cbn [negb]. rewrite orb_true_r. reflexivity.
+  - rewrite (should_do_needs_dollar_paren s Hdp). cbn [negb]. rewrite orb_true_r. reflexivity.
 Qed.
 
 Lemma subst_dollar_calm fuel W toks : Forall calm toks -> subst_dollar fuel W toks [] = Ok (toks, []).
@@ -360,36 +349,38 @@ Qed.
 
 (* ------------------------------------------------------------------ assembly *)
 Lemma cmd_calm W cmd : cmd_ok W cmd -> calm (TNone, cmd).
-Proof. intros [_ _ (H36 & H96 & _) _]. right. cbn [fst snd]. auto. Qed.
+Proof.
+  intros [_ _ (H36 & H96 & _) _]. right. cbn [fst snd].
+  split; [right; reflexivity|]. split; [apply has_dollar_paren_no_dollar; exact H36 | exact H96].
+Qed.
 
 Lemma cmd_still W cmd : cmd_ok W cmd -> still (TNone, cmd).
 Proof. intros [_ _ (_ & _ & _ & H42 & H123) _]. right. cbn [fst snd]. auto. Qed.
 
 Theorem do_expansion_inert : forall W fuel cmd l l',
-  cmd_ok W cmd -> Forall2 (tok_ok W fuel) l l' ->
+  cmd_ok W cmd -> Forall2 (tok_ok W) l l' ->
   do_expansion Tokenizer.parse_line W fuel ((TNone, cmd) :: l) = Ok ((TNone, cmd) :: l').
 Proof.
   intros W fuel cmd l l' Hc Hl.
-  pose proof (forall2_tagged_l _ _ _ _ Hl) as Htag.
-  pose proof (forall2_inert_r _ _ _ _ Hl) as Hin.
+  pose proof (forall2_tagged_l _ _ _ Hl) as Htag.
   assert (Hcalm : Forall calm ((TNone, cmd) :: l')).
-  { constructor; [eapply cmd_calm; eassumption|]. eapply Forall_impl; [|exact Hin]. apply inert_calm. }
+  { constructor; [eapply cmd_calm; eassumption | eapply forall2_calm_r; eassumption]. }
   assert (Hstill : Forall still ((TNone, cmd) :: l')).
-  { constructor; [eapply cmd_still; eassumption|]. eapply Forall_impl; [|exact Hin]. apply inert_still. }
+  { constructor; [eapply cmd_still; eassumption | eapply forall2_still_r; eassumption]. }
   destruct Hc as [Ha Hn (H36 & H96 & H126 & H42 & H123) Hw] eqn:EHc. clear EHc.
   unfold do_expansion, do_expansion_log.
   rewrite (not_arithmetic W cmd l Hc), (not_export_prompt W cmd l Hc).
   cbn zeta.
   rewrite (expand_alias_tagged _ W cmd l Hc Htag).
   rewrite (expand_home_tagged W cmd l H126 Htag).
-  rewrite (expand_env_inert W fuel cmd l l' H36 Hl). cbn [bind].
+  rewrite (expand_env_inert W cmd l l' H36 Hl).
   rewrite (expand_brace_still _ Hstill). cbn [bind].
   rewrite (expand_glob_still W _ Hstill). cbn [bind].
   rewrite (do_command_substitution_calm fuel W _ Hcalm). cbn [bind fst snd].
   rewrite (expand_brace_range_still _ Hstill). reflexivity.
 Qed.
 
-Lemma inert_tok_ok W fuel l : Forall inert l -> Forall2 (tok_ok W fuel) l l.
+Lemma inert_tok_ok W l : Forall inert l -> Forall2 (tok_ok W) l l.
 Proof.
   induction 1 as [|[tg s] l Ht _ IH]; constructor; [|exact IH].
   destruct Ht as [Ht|(Ht & H36 & H96)]; cbn [fst snd] in *; subst tg; constructor; assumption.
@@ -402,16 +393,88 @@ Proof.
   intros W fuel cmd l Hc Hl. apply do_expansion_inert; [exact Hc|]. apply inert_tok_ok. exact Hl.
 Qed.
 
-Corollary do_expansion_one_ref : forall W fuel cmd l1 l2 ps, cmd_ok W cmd ->
-  Forall (fun t => fst t = TSq \/ (fst t = TDq /\ ~ In 36 (snd t) /\ ~ In 96 (snd t))) l1 ->
-  Forall (fun t => fst t = TSq \/ (fst t = TDq /\ ~ In 36 (snd t) /\ ~ In 96 (snd t))) l2 ->
-  c10_dom W ps = true -> ~ In 96 (den_pieces W ps) -> (S (count_refs ps) <= fuel)%nat ->
+Corollary do_expansion_one_ref : forall W fuel cmd l1 l2 ps, cmd_ok W cmd -> Forall inert l1 -> Forall inert l2 ->
+  wf_pieces ps = true -> gate_ok ps = true ->
+  ~ In 96 (den_pieces W ps) -> has_dollar_paren (den_pieces W ps) = false ->
   do_expansion Tokenizer.parse_line W fuel ((TNone, cmd) :: l1 ++ (TDq, render_pieces ps) :: l2)
   = Ok ((TNone, cmd) :: l1 ++ (TDq, den_pieces W ps) :: l2).
 Proof.
-  intros W fuel cmd l1 l2 ps Hc H1 H2 Hd H96 Hf. apply do_expansion_inert; [exact Hc|].
+  intros W fuel cmd l1 l2 ps Hc H1 H2 Hwf Hg H96 Hdp. apply do_expansion_inert; [exact Hc|].
   apply Forall2_app; [apply inert_tok_ok; exact H1|].
   constructor; [constructor; assumption | apply inert_tok_ok; exact H2].
+Qed.
+
+(* ------------------------------------------------------------------ the shape the callers use *)
+Lemma no36_forallb (s : str) : ~ In 36 s -> @forallb N (fun c : N => negb (c =? 36)) s = true.
+Proof.
+  induction s as [|c s IH]; intros H; [reflexivity|]. cbn [forallb].
+  rewrite IH by (intros X; apply H; right; exact X).
+  destruct (c =? 36) eqn:E; [|reflexivity]. apply N.eqb_eq in E. exfalso. apply H. left. exact E.
+Qed.
+
+Lemma lits_okg_map_lit noeq (s : str) : lits_okg noeq (map PLit s) = forallb (okg noeq) s.
+Proof.
+  unfold lits_okg. induction s as [|c s IH]; [reflexivity|]. cbn [map forallb]. rewrite IH. reflexivity.
+Qed.
+
+Lemma lits_okg_app noeq a b : lits_okg noeq (a ++ b) = lits_okg noeq a && lits_okg noeq b.
+Proof. unfold lits_okg. apply forallb_app. Qed.
+
+Lemma render_one_ref (pre post : str) br name :
+  render_pieces (map PLit pre ++ PRef br name :: map PLit post) = pre ++ render_piece (PRef br name) ++ post.
+Proof.
+  rewrite render_app, render_map_lit. f_equal.
+  change (render_pieces (PRef br name :: map PLit post))
+    with (render_piece (PRef br name) ++ render_pieces (map PLit post)).
+  rewrite render_map_lit. reflexivity.
+Qed.
+
+Lemma den_one_ref W (pre post : str) br name :
+  den_pieces W (map PLit pre ++ PRef br name :: map PLit post) = pre ++ key_value W name ++ post.
+Proof. rewrite den_app, den_map_lit, den_ref, den_map_lit. reflexivity. Qed.
+
+Lemma wf_one_ref (pre post : str) br name :
+  ~ In 36 pre -> ~ In 36 post -> is_name name = true ->
+  (br = true \/ match post with c :: _ => is_alnum_us c = false | [] => True end) ->
+  wf_pieces (map PLit pre ++ PRef br name :: map PLit post) = true.
+Proof.
+  intros Hpre Hpost Hn Hbr. rewrite wf_map_lit, (no36_forallb pre Hpre). cbn [andb wf_pieces].
+  apply andb_true_iff; split; [apply andb_true_iff; split|].
+  - unfold wf_key. rewrite Hn. reflexivity.
+  - destruct Hbr as [->|Hp]; [reflexivity|]. rewrite Hn. cbn [negb].
+    destruct br; [reflexivity|]. cbn [orb].
+    destruct post as [|c post]; [reflexivity|]. cbn [map]. rewrite Hp. reflexivity.
+  - rewrite <- (app_nil_r (map PLit post)), wf_map_lit, (no36_forallb post Hpost). reflexivity.
+Qed.
+
+Lemma gate_one_ref noeq (pre post : str) br name :
+  forallb (okg noeq) (pre ++ post) = true ->
+  gate_ok (map PLit pre ++ PRef br name :: map PLit post) = true.
+Proof.
+  intros Hg. rewrite forallb_app in Hg. apply andb_true_iff in Hg as [G1 G2].
+  assert (L : lits_okg noeq (map PLit pre ++ PRef br name :: map PLit post) = true).
+  { change (PRef br name :: map PLit post) with ([PRef br name] ++ map PLit post).
+    rewrite !lits_okg_app, !lits_okg_map_lit, G1, G2. reflexivity. }
+  unfold gate_ok. destruct noeq; rewrite L; [reflexivity | apply orb_true_r].
+Qed.
+
+(** literal text, ONE reference to a name, literal text *)
+Corollary do_expansion_dq_value : forall W fuel cmd l1 l2 noeq br (pre : str) (name : str) (post : str),
+  cmd_ok W cmd -> Forall inert l1 -> Forall inert l2 ->
+  ~ In 36 pre -> ~ In 36 post -> forallb (okg noeq) (pre ++ post) = true -> is_name name = true ->
+  (br = true \/ match post with c :: _ => is_alnum_us c = false | [] => True end) ->
+  ~ In 96 (pre ++ key_value W name ++ post) -> has_dollar_paren (pre ++ key_value W name ++ post) = false ->
+  do_expansion Tokenizer.parse_line W fuel
+    ((TNone, cmd) :: l1 ++ (TDq, pre ++ render_piece (PRef br name) ++ post) :: l2)
+  = Ok ((TNone, cmd) :: l1 ++ (TDq, pre ++ key_value W name ++ post) :: l2).
+Proof.
+  intros W fuel cmd l1 l2 noeq br pre name post Hc H1 H2 Hpre Hpost Hg Hn Hbr H96 Hdp.
+  rewrite <- (render_one_ref pre post br name), <- (den_one_ref W pre post br name).
+  apply do_expansion_one_ref; try assumption.
+  - apply wf_one_ref; assumption.
+  - eapply gate_one_ref; eassumption.
+  - rewrite den_one_ref. exact H96.
+  - rewrite den_one_ref. exact Hdp.
 Qed.
 
 (* ------------------------------------------------------------------ refutation side *)
@@ -422,7 +485,17 @@ Example untagged_value_is_syntax :
   = Ok [(TNone, s2l "echo"); (TNone, [124])].
 Proof. vm_compute. reflexivity. Qed.
 
+(** a DOUBLE-QUOTED reference: the value [x$B<newline>|] is data -- its dollar is not expanded again,
+    its newline and pipe stay inside the one double-quoted token *)
+Example dq_value_is_data :
+  do_expansion Tokenizer.parse_line (world_of [(s2l "A", [120; 36; 66; 10; 124])] []) 5
+    [(TNone, s2l "echo"); (TDq, s2l "a$A.")]
+  = Ok [(TNone, s2l "echo"); (TDq, [97; 120; 36; 66; 10; 124; 46])].
+Proof. vm_compute. reflexivity. Qed.
+
 Print Assumptions do_expansion_inert.
 Print Assumptions do_expansion_quoted.
 Print Assumptions do_expansion_one_ref.
+Print Assumptions do_expansion_dq_value.
 Print Assumptions untagged_value_is_syntax.
+Print Assumptions dq_value_is_data.
